@@ -480,6 +480,9 @@ class Process(metaclass=abc.ABCMeta):
         def get_defaults(d: dict) -> Optional[State]:
             defaults = {}
             for k, v in d.items():
+                if k == '*':
+                    # a glob declares a sub-schema, not a child
+                    continue
                 if isinstance(v, dict):
                     def_val = v.get('_default', get_defaults(v))
                     if def_val is not None:
